@@ -16,6 +16,7 @@ def check(run, only=None):
     simple.gen_and_replay(run, "C10", nontrivial=nontrivial, only=only)
 
     if only is None:
+        simple.tags_src(run, "C10")
         # binding T: seeded random programs over the whole schema, accepted by TLC against the reference executor
         exectrace.run_exec_trace(run, 10000 if run.tier == "thorough" else 600, 10)
 
